@@ -309,89 +309,84 @@ func explainStale(t, f *ruleset, skip map[string]bool, pkt Packet, want bool, di
 	if !want {
 		effect = "admits"
 	}
-	fixed := func(h *ruleset) bool {
-		h.pull(f)
-		r := walk(h, "FORWARD", skip, pkt, false)
-		return r.Verdict != "UNSUPPORTED" && (r.Verdict != "DROP") == want
-	}
 	base, flag, local := "GLX-INGRESS", "-d", pkt.Dst
 	if dir == dirEgress {
 		base, flag, local = "GLX-EGRESS", "-s", pkt.Src
 	}
-	// 1. hooks
-	h := t.copy()
-	h.chains["GLX-INGRESS"], h.chains["GLX-EGRESS"] = f.chains["GLX-INGRESS"], f.chains["GLX-EGRESS"]
-	if fixed(h) {
-		th, fh := hooksFor(t, base, flag, local), hooksFor(f, base, flag, local)
-		inF := map[string]bool{}
-		for _, r := range fh {
-			inF[r.String()] = true
-		}
-		inT := map[string]bool{}
-		var stale []fakes.Rule
-		for _, r := range th {
-			inT[r.String()] = true
-			if !inF[r.String()] {
-				stale = append(stale, r)
+	// components of the installed state that can be replaced by what a fresh manager installs
+	apply := func(h *ruleset, comp string) {
+		switch comp {
+		case "hooks":
+			h.chains["GLX-INGRESS"], h.chains["GLX-EGRESS"] = f.chains["GLX-INGRESS"], f.chains["GLX-EGRESS"]
+		case "pod-chains", "policy-chains":
+			prefix := "GLX-POD-"
+			if comp == "policy-chains" {
+				prefix = "GLX-PLCY-"
 			}
-		}
-		missing := 0
-		for _, r := range fh {
-			if !inT[r.String()] {
-				missing++
+			for n, c := range f.chains {
+				if strings.HasPrefix(n, prefix) {
+					h.chains[n] = c
+				}
 			}
+		default: // "set:<name>"
+			n := strings.TrimPrefix(comp, "set:")
+			h.sets[n] = f.sets[n]
 		}
-		switch {
-		case len(stale) > 0:
-			owner := "same-pod"
-			if commentOf(stale[0]) != localOwner {
-				owner = "former-ip-owner"
+	}
+	repairs := func(comps []string) bool {
+		h := t.copy()
+		for _, c := range comps {
+			apply(h, c)
+		}
+		h.pull(f)
+		r := walk(h, "FORWARD", skip, pkt, false)
+		return r.Verdict != "UNSUPPORTED" && (r.Verdict != "DROP") == want
+	}
+	// signature of one component
+	name := func(comp string) (string, string) {
+		switch comp {
+		case "hooks":
+			th, fh := hooksFor(t, base, flag, local), hooksFor(f, base, flag, local)
+			inF, inT := map[string]bool{}, map[string]bool{}
+			for _, r := range fh {
+				inF[r.String()] = true
 			}
-			return []string{"c16-stale-pod-hook-of-" + owner + "-" + effect},
-				fmt.Sprintf("%s still holds %q for %s, which a fresh manager does not install", base, stale[0].String(), ipStr(local))
-		case missing > 0:
-			return []string{"c16-missing-pod-hook-" + effect}, base + " lacks the hook of " + ipStr(local)
+			var stale []fakes.Rule
+			for _, r := range th {
+				inT[r.String()] = true
+				if !inF[r.String()] {
+					stale = append(stale, r)
+				}
+			}
+			missing := 0
+			for _, r := range fh {
+				if !inT[r.String()] {
+					missing++
+				}
+			}
+			switch {
+			case len(stale) > 0:
+				owner := "same-pod"
+				if commentOf(stale[0]) != localOwner {
+					owner = "former-ip-owner"
+				}
+				return "c16-stale-pod-hook-of-" + owner + "-" + effect,
+					fmt.Sprintf("%s still holds %q for %s, which a fresh manager does not install", base, stale[0].String(), ipStr(local))
+			case missing > 0:
+				return "c16-missing-pod-hook-" + effect, base + " lacks the hook of " + ipStr(local)
+			}
+			return "c16-pod-hook-order-" + effect, "same hooks, other order"
+		case "pod-chains":
+			return "c16-stale-pod-chain-body-" + effect, "the pod chain's rules are not those a fresh manager writes"
+		case "policy-chains":
+			if want {
+				return "c16-missing-policy-chain-rule-drops", "a policy chain lacks rules a fresh manager writes"
+			}
+			return "c16-stale-policy-chain-rule-admits", "a policy chain holds rules a fresh manager does not write"
 		}
-		return []string{"c16-pod-hook-order-" + effect}, "same hooks, other order"
-	}
-	// 2. pod chains
-	h = t.copy()
-	for n, c := range f.chains {
-		if strings.HasPrefix(n, "GLX-POD-") {
-			h.chains[n] = c
-		}
-	}
-	if fixed(h) {
-		return []string{"c16-stale-pod-chain-body-" + effect}, "the pod chain's rules are not those a fresh manager writes"
-	}
-	// 3. policy chains
-	h = t.copy()
-	for n, c := range f.chains {
-		if strings.HasPrefix(n, "GLX-PLCY-") {
-			h.chains[n] = c
-		}
-	}
-	if fixed(h) {
-		if want {
-			return []string{"c16-missing-policy-chain-rule-drops"}, "a policy chain lacks rules a fresh manager writes"
-		}
-		return []string{"c16-stale-policy-chain-rule-admits"}, "a policy chain holds rules a fresh manager does not write"
-	}
-	// 4. one set
-	var names []string
-	for n := range f.sets {
-		names = append(names, n)
-	}
-	sort.Strings(names)
-	for _, n := range names {
-		h = t.copy()
-		h.sets[n] = f.sets[n]
-		if !fixed(h) {
-			continue
-		}
+		n := strings.TrimPrefix(comp, "set:")
 		ts, fs := t.sets[n], f.sets[n]
-		what := "stale"
-		detail := ""
+		what, detail := "stale", ""
 		if ts == nil {
 			what = "missing"
 		} else {
@@ -402,17 +397,52 @@ func explainStale(t, f *ruleset, skip map[string]bool, pkt Packet, want bool, di
 					continue
 				}
 				detail = ipStr(addr)
-				if !th && fh {
-					what = "missing"
+				if ts.typ != ipset.HashNet {
+					if fh {
+						what = "missing"
+					}
+					continue
 				}
-				if ts.typ == ipset.HashNet {
+				// element level: which element covering the address does one side have and the other not?
+				flipped, missing, stale := false, false, false
+				for _, fe := range fs.nets {
+					if !inCIDR(addr, fe.base, fe.bits) {
+						continue
+					}
+					found := false
 					for _, te := range ts.nets {
-						for _, fe := range fs.nets {
-							if te.base == fe.base && te.bits == fe.bits && te.nomatch != fe.nomatch && inCIDR(addr, te.base, te.bits) {
-								what = "nomatch-flipped"
+						if te.base == fe.base && te.bits == fe.bits {
+							found = true
+							if te.nomatch != fe.nomatch {
+								flipped = true
 							}
 						}
 					}
+					if !found {
+						missing = true
+					}
+				}
+				for _, te := range ts.nets {
+					if !inCIDR(addr, te.base, te.bits) {
+						continue
+					}
+					found := false
+					for _, fe := range fs.nets {
+						if te.base == fe.base && te.bits == fe.bits {
+							found = true
+						}
+					}
+					if !found {
+						stale = true
+					}
+				}
+				switch {
+				case flipped:
+					what = "nomatch-flipped"
+				case missing && !stale:
+					what = "missing"
+				case stale:
+					what = "stale"
 				}
 			}
 		}
@@ -420,35 +450,47 @@ func explainStale(t, f *ruleset, skip map[string]bool, pkt Packet, want bool, di
 		if what == "stale" && setKind(n) == "peer-ip-set" && effect == "admits" {
 			sig = "c16-stale-set-member-admits-former-peer"
 		}
-		return []string{sig}, fmt.Sprintf("set %s: %s member %s compared with a fresh manager's set", n, what, detail)
+		return sig, fmt.Sprintf("set %s: %s member %s compared with a fresh manager's set", n, what, detail)
 	}
-	// 5. all sets
-	h = t.copy()
-	for n, s := range f.sets {
-		h.sets[n] = s
+	var setNames []string
+	for n := range f.sets {
+		setNames = append(setNames, "set:"+n)
 	}
-	if fixed(h) {
-		return []string{"c16-stale-members-in-several-sets-" + effect}, "only replacing several sets at once repairs the verdict"
-	}
-	// 6. all GLX chains, then everything
-	h = t.copy()
-	for n, c := range f.chains {
-		if strings.HasPrefix(n, "GLX-") {
-			h.chains[n] = c
+	sort.Strings(setNames)
+	// one component alone
+	for _, comp := range append([]string{"hooks", "pod-chains", "policy-chains"}, setNames...) {
+		if repairs([]string{comp}) {
+			s, txt := name(comp)
+			return []string{s}, txt
 		}
 	}
-	if fixed(h) {
-		return []string{"c16-stale-chains-of-several-kinds-" + effect},
-			"only replacing hooks, pod chains and policy chains together repairs the verdict"
+	// several components: reduce the full replacement to a set in which every component is necessary and report each
+	// under its own signature (a combination is nothing new if each of its necessary parts is a known shape)
+	all := append(append([]string{}, setNames...), "policy-chains", "pod-chains", "hooks")
+	if !repairs(all) {
+		desc := "stale-state " + effect + " " + dir + " not repaired by replacing all galaxy chains and sets"
+		return []string{"unclassified-" + shapeHash(desc)}, desc
 	}
-	for n, s := range f.sets {
-		h.sets[n] = s
+	need := all
+	for _, comp := range all {
+		var without []string
+		for _, c := range need {
+			if c != comp {
+				without = append(without, c)
+			}
+		}
+		if repairs(without) {
+			need = without
+		}
 	}
-	if fixed(h) {
-		return []string{"c16-stale-chains-and-sets-" + effect}, "only replacing chains and sets together repairs the verdict"
+	var sigs, texts []string
+	for _, comp := range need {
+		s, txt := name(comp)
+		sigs = append(sigs, s)
+		texts = append(texts, txt)
 	}
-	desc := "stale-state " + effect + " " + dir + " not repaired by replacing hooks, pod chains, policy chains or sets alone"
-	return []string{"unclassified-" + shapeHash(desc)}, desc
+	sort.Strings(sigs)
+	return uniq(sigs), "the verdict is repaired only by replacing together: " + strings.Join(texts, "; ")
 }
 
 // ---- the case ----
